@@ -322,7 +322,9 @@ def standard_check(mod, tier, seed, replay=None):
             proof_ok = False
             broken.append('coqchk failed: ' + out_c[-300:])
     res.trusted.insert(0, 'Coq 8.16.1 kernel + VM (vm_compute); native_compute not used')
-    res.trusted.append(EXTRACTION_TB)
+    res.trusted.append(getattr(mod, 'EXTRACTION_TB', EXTRACTION_TB))
+    if getattr(mod, 'ALLOWED_AXIOMS', None):
+        res.trusted.append('standard-library axioms allowed for this property: ' + ', '.join(mod.ALLOWED_AXIOMS))
     res.trusted.append('translator/gen_all.py (tables regenerated from /repo each run) and harness/*.py; '
                        'implementation adapter calls the public API with PYTHONPATH=/repo and a fresh BCL_DATA_DIR')
 
